@@ -2,9 +2,10 @@
    models (nothing regenerated from /repo): used to search for a failing input
    when the translation or a proof about the generated code is broken. *)
 From Coq Require Import Extraction ExtrOcamlBasic.
-From LE Require Import Base Strs Config Err ConfigSpec ErrSpec.
+From LE Require Import Base Strs Config Err ConfigSpec ErrSpec Retry RetrySpec.
 
 Extraction Language OCaml.
 Extraction "extracted.ml"
   valid_specb mkCfg
-  msg class_ok required_class nats_situation_permanent.
+  msg class_ok required_class nats_situation_permanent
+  backoff_withinb cb_spec_step retry_loop.
